@@ -168,6 +168,10 @@ class RDSystem :
         self.network = network
         self.space = space
 
+        for e in self.space.get_cell_env_array() :
+            if e < 0 or e >= self.network.nenvironments() :
+                raise ValueError("cell environment index "+str(e)+" does not refer to an environment of the network.")
+
         if isnone(state) : 
             self.set_default_state()
         elif isdict(state) :
